@@ -113,7 +113,14 @@ TV_NOTE = ("Trusted: TLC and the CommunityModules overrides; the harness encoder
 NOT_APPLICABLE = {}
 
 PROPS = {
-    "C11": dict(level="exploration", nontrivial=nt_c11, race=True,
+    "C11": dict(mc=[dict(name="Conc", module="Conc.tla", cfg="ConcMC.cfg", timeout=300),
+                    dict(name="ConcPinLikeBuf", module="Conc.tla", cfg="ConcPinLikeBuf.cfg", expect_violation="NoRace"),
+                    dict(name="ConcPinCtxMaps", module="Conc.tla", cfg="ConcPinCtxMaps.cfg", expect_violation="NoRace"),
+                    dict(name="ConcPinPool", module="Conc.tla", cfg="ConcPinPool.cfg", expect_violation="NoRace"),
+                    dict(name="ConcPinAppend", module="Conc.tla", cfg="ConcPinAppend.cfg", expect_violation="NoRace"),
+                    dict(name="ConcEmit", module="Conc.tla", cfg="ConcEmit.cfg", emit=True, id_base=1000000, tier_only="quick"),
+                    dict(name="ConcEmitAll", module="Conc.tla", cfg="ConcEmitAll.cfg", emit=True, id_base=1000000, tier="thorough")],
+                level="exploration", nontrivial=nt_c11, race=True,
                 text="Batches of 2..8 operations (Filter incl. like/ilike, Sort, Distinct, GroupBy, Apply, Eval, Select/Slice/Copy, typed views, ToCSV/ToJSON/String, Equals) are started together on "
                      "separate goroutines released from a barrier, on the same frame and on frames sharing storage with it (parent/child, siblings through Slice, sorted copies, a shared enum table), "
                      "each batch repeated with seeded yields, with the harness built with -race. Every concurrent result is emitted as an ordinary event and judged by TLC against the operation's "
